@@ -280,7 +280,7 @@ SPEC_VERSION = (1, 1)
 
 
 def version_ok(v):
-    """the library's own documented rule: readable if its major or its minor version is not older than the document's"""
+    """readable if the document's (major, minor) specification version is not newer than the implementation's"""
     if not isinstance(v, str):
         return False
     try:
@@ -289,7 +289,7 @@ def version_ok(v):
         return False
     if len(parts) < 2:
         return False
-    return SPEC_VERSION[0] >= parts[0] or SPEC_VERSION[1] >= parts[1]
+    return (SPEC_VERSION[0], SPEC_VERSION[1]) >= (parts[0], parts[1])
 
 
 def valid_document(doc):
@@ -325,9 +325,14 @@ def struct_mutants(doc):
         m = copy.deepcopy(doc)
         m["version"] = bad
         yield "hdr-version-retype:%s" % type(bad).__name__, m
-    m = copy.deepcopy(doc)
-    m["version"] = "99.99"
-    yield "hdr-version-incompatible", m
+    for bad in ("99.99", "2.0", "1.%d" % (SPEC_VERSION[1] + 1), "%d.0" % (SPEC_VERSION[0] + 1), "1.9"):
+        m = copy.deepcopy(doc)
+        m["version"] = bad
+        yield "hdr-version-incompatible:%s" % bad, m
+    for extra in ("extra", "entries", "name"):
+        m = copy.deepcopy(doc)
+        m[extra] = 1.0 if extra != "name" else "x"
+        yield "hdr-add-key:%s" % extra, m
 
     for path, ptype, frag in list(walk(doc["type"], doc["data"], ("data",))):
         g = G[ptype]
